@@ -11,7 +11,7 @@ from ..avm.engine import Engine, HarnessError, Outcome
 from ..avm.sym import Bounds, SymAVM
 from ..avm.values import Bs, U, u64_to_bytes
 from ..common import from_json, to_json
-from ..teal.parse import TealSyntaxError, check_program, parse
+from ..teal.parse import TealSyntaxError, blocking_complaints, check_program, parse
 from .. import tv
 from . import model as M, programs as P, types as T
 
@@ -128,7 +128,7 @@ def _common(job, build):
     except TealSyntaxError as e:
         out["complaints"] = ["unparsable: %s" % e]
         return out, None, teal
-    out["complaints"] = check_program(prog, "A")
+    out["complaints"] = blocking_complaints(prog, "A")
     out["teal_lines"] = len(prog.instrs)
     if out["complaints"]:
         out["teal"] = teal
